@@ -321,6 +321,16 @@ def run_tree(case, tmp):
     return mism, info
 
 
+def emit(pl, obj):
+    """large results go through a file: the orchestrator reads the child's stdout pipe only after exit"""
+    if pl.get("out"):
+        with open(pl["out"], "w") as fh:
+            json.dump(obj, fh)
+        print("RESULT " + json.dumps({"file": pl["out"]}))
+    else:
+        print("RESULT " + json.dumps(obj))
+
+
 def main():
     pl = json.loads(sys.stdin.read())
     out = []
@@ -337,7 +347,7 @@ def main():
                 out.append({"id": case["id"], "ok": False, "mismatch": ["case raised %r" % (e,), traceback.format_exc()[-800:]], "info": {}})
     finally:
         shutil.rmtree(tmp, ignore_errors=True)
-    print("RESULT " + json.dumps({"results": out}))
+    emit(pl, {"results": out})
 
 
 if __name__ == "__main__":
